@@ -331,6 +331,7 @@ func (idx *PQIndex) Remove(vector VectorNode) error {
 	}
 	alreadyDeleted := idx.deletedNodes.Contains(id)
 	idx.mu.RUnlock()
+	verifHook("pq.remove.checked", id)
 
 	// Fast-fail validation outside of write lock
 	if !exists {
@@ -512,6 +513,7 @@ func (idx *PQIndex) WriteTo(w io.Writer) (int64, error) {
 		return 0, fmt.Errorf("failed to flush before serialization: %w", err)
 	}
 
+	verifHook("pq.writeto.flushed")
 	idx.mu.RLock()
 	defer idx.mu.RUnlock()
 
